@@ -3,7 +3,8 @@
 # full .vo build of the Coq development, extraction, OCaml model binary.
 set -e
 cd "$(dirname "$0")"
-export PYTHONPATH=/verif/harness:/repo PYTHONHASHSEED=0 PYTHONDONTWRITEBYTECODE=1
+export VERIF_ROOT="$(pwd)" VERIF_REPO="${VERIF_REPO:-/repo}"
+export PYTHONPATH="$VERIF_ROOT/harness:$VERIF_REPO" PYTHONHASHSEED=0 PYTHONDONTWRITEBYTECODE=1
 mkdir -p coq/Gen evidence replays extract/gen/Bins extract/gen/Partitions extract/gen/Dtype extract/gen/Overlap
 /venv/bin/python translator/py2coq.py coq/Gen
 for t in translator/cli2coq.py translator/workers2coq.py translator/proto2coq.py translator/buf2coq.py; do [ -f $t ] && /venv/bin/python $t coq/Gen || true; done
